@@ -40,7 +40,11 @@ Definition sanitize (m : hm) : hm := hm_remove_all m reserved_headers.
 (* HeaderValue::from_maybe_shared succeeds iff every byte is legal *)
 Definition mk_hv (v : list N) : option (list N) := if hv_ok v then Some v else None.
 
-(* Status::add_header; None = Err(invalid header value) *)
+(* Status::add_header; None = Err(invalid header value).
+   After fix ed827503 (F-C04e) a status WITHOUT details removes the details header from the map
+   (`else { header_map.remove(GRPC_STATUS_DETAILS) }`): an entry of that name in the custom
+   metadata (the name is not reserved, so it survives sanitising) or in the map written into can
+   no longer be read back as the details of the status. *)
 Definition add_header (st : status) (m : hm) : option hm :=
   let m1 := hm_extend m (sanitize (st_md st)) in
   match code_to_hv (st_code st) with
@@ -59,7 +63,7 @@ Definition add_header (st : status) (m : hm) : option hm :=
       | None => None
       | Some m3 =>
           match st_details st with
-          | [] => Some m3
+          | [] => Some (hm_remove m3 hdr_grpc_status_details)
           | _ => match mk_hv (enc false (st_details st)) with
                  | Some v => Some (hm_insert m3 hdr_grpc_status_details v)
                  | None => None
